@@ -42,7 +42,7 @@ func run(c *vf.Ctx) {
 		"AUTHENTICATE: (domain, workstation, user) in Strings({a,B,é,Σ},<=2)^3 x all 64 combinations of {UNICODE, OEM, VERSION, EXTENDED_SESSIONSECURITY, TARGET_INFO, KEY_EXCH} + long names; " +
 		"CHALLENGE: reference-encoded messages over 64 flag combinations x target names of 0..3 units x AV-pair lists of 0..3 pairs with distinct ids from {1,2,3,4,6,7,9,10} and values of 0..2 units (fixed-size ids: two contents) x both payload orders x gap {0,3} x MaxLen slack; " +
 		"SPNEGO: token lengths 1..300 and 2^k-1, 2^k, 2^k+1 for k<=17 through CreateNegTokenInit and CreateNegTokenResp (4 states x mech present/absent); AuthContext end to end. distinct = distinct (entry point, input tuple)")
-	c.Assume("the reference reader/encoder (self-tested on the MS-NLMP 4.2.4.3 CHALLENGE and AUTHENTICATE examples and X.690 length forms) is the authority on structure; go-asn1-ber is an independent DER decoder; " +
+	c.Assume("the reference reader/encoder (self-tested on the MS-NLMP 4.2.4.3 CHALLENGE and AUTHENTICATE examples and X.690 length forms, cross-checked against github.com/Azure/go-ntlmssp) is the authority on structure; go-asn1-ber is an independent DER decoder; " +
 		"OEM names are judged on 7-bit ASCII only; domain/workstation/user names are compared case-insensitively (the library upper-cases domain and workstation); only well-formed input is fed to parsers (hostile input belongs to C07)")
 	for _, sec := range []struct {
 		name string
@@ -204,7 +204,9 @@ func judgeNegotiate(r reporter, prefix string, msg []byte, domain, workstation s
 	})
 	header := m.Fixed
 	if m.Flags&rn.FlagVersion != 0 {
-		r(prefix+"/version-field-present-when-flagged", len(msg) >= 40, func() string { return fmt.Sprintf("%s: NEGOTIATE_VERSION set but the message has only %d bytes", desc(), len(msg)) })
+		r(prefix+"/version-field-present-when-flagged", len(msg) >= 40, func() string {
+			return fmt.Sprintf("%s: NEGOTIATE_VERSION set but the message has only %d bytes", desc(), len(msg))
+		})
 		header = 40
 	}
 	fs := []rn.NamedField{{Name: "DomainName", F: m.Domain}, {Name: "Workstation", F: m.Workstation}}
@@ -601,7 +603,9 @@ func challenge(c *vf.Ctx) {
 		t.check("C08/challenge/ParseChallengeMessage/signature-and-type", bytes.Equal(cm.Signature[:], rn.Signature) && cm.MessageType == 2, func() string {
 			return fmt.Sprintf("%s: Signature %x MessageType %d", desc(), cm.Signature, cm.MessageType)
 		})
-		t.check("C08/challenge/ParseChallengeMessage/NegotiateFlags", cm.NegotiateFlags == spec.Flags, func() string { return fmt.Sprintf("%s: NegotiateFlags %#x want %#x", desc(), cm.NegotiateFlags, spec.Flags) })
+		t.check("C08/challenge/ParseChallengeMessage/NegotiateFlags", cm.NegotiateFlags == spec.Flags, func() string {
+			return fmt.Sprintf("%s: NegotiateFlags %#x want %#x", desc(), cm.NegotiateFlags, spec.Flags)
+		})
 		t.check("C08/challenge/ParseChallengeMessage/ServerChallenge", cm.ServerChallenge == spec.ServerChallenge, func() string {
 			return fmt.Sprintf("%s: ServerChallenge %x want %x", desc(), cm.ServerChallenge, spec.ServerChallenge)
 		})
@@ -694,7 +698,9 @@ func judgeFrame(r reporter, prefix string, out, tok []byte, desc func() string) 
 		r(prefix+"/outer-length-is-remaining-bytes", info.OuterLen == len(out)-1-len(rn.DERLen(info.OuterLen)), func() string {
 			return fmt.Sprintf("%s = %s: outer length %d, %d bytes in total", desc(), vf.HexS(out), info.OuterLen, len(out))
 		})
-		r(prefix+"/spnego-oid", bytes.Equal(info.OID, rn.OIDSpnego), func() string { return fmt.Sprintf("%s: mechanism OID content %x want %x", desc(), info.OID, rn.OIDSpnego) })
+		r(prefix+"/spnego-oid", bytes.Equal(info.OID, rn.OIDSpnego), func() string {
+			return fmt.Sprintf("%s: mechanism OID content %x want %x", desc(), info.OID, rn.OIDSpnego)
+		})
 		r(prefix+"/carries-token", info.HasToken && bytes.Equal(info.Token, tok), func() string {
 			return fmt.Sprintf("%s = %s: OCTET STRING under [2] is %s, token was %s", desc(), vf.HexS(out), vf.HexS(info.Token), vf.HexS(tok))
 		})
@@ -734,7 +740,9 @@ func spnegoTokens(c *vf.Ctx) {
 		var out []byte
 		var err error
 		if k.kind == 0 {
-			desc := func() string { return fmt.Sprintf("spnego.CreateNegTokenInit(token of %d bytes %s)", k.n, vf.HexS(tok)) }
+			desc := func() string {
+				return fmt.Sprintf("spnego.CreateNegTokenInit(token of %d bytes %s)", k.n, vf.HexS(tok))
+			}
 			c.Case([]byte("init"), tok)
 			if !call(t, "spnego.CreateNegTokenInit", desc, func() { out, err = spnego.CreateNegTokenInit(append([]byte{}, tok...)) }) {
 				return
